@@ -183,6 +183,12 @@ Definition wf (s : fs) : Prop :=
   (forall n j, dir s n = Some j -> j < next s) /\
   (forall fd e, fds s fd = Some e -> fe_ino e < next s).
 
+(* the initial states the theorems quantify over: well-formed, the target name shows the inode record I0,
+   and no descriptor that is already open for writing refers to the target's inode *)
+Definition init_ok (s : fs) (target : str) (I0 : inode) : Prop :=
+  wf s /\ look s target = Some I0 /\
+  (forall fd e, fds s fd = Some e -> fe_wr e = true -> dir s target <> Some (fe_ino e)).
+
 (* --- the protocol checker ---------------------------------------------------- *)
 (* It knows only the target name, the permission bits the target must keep, and the new
    contents; it tracks the files CREATED during the trace (by name, with their contents
